@@ -89,7 +89,11 @@ void harness(void) {
 
 	for (r = 0; r < SCN_N; r++) {
 		out = NULL; waiting = 0;
+		#ifdef SCN_NO_WAITING
+		res = KSI_HighAvailabilityService_run(&has, KSI_HighAvailabilityService_aggrRespHandler, &out, NULL);
+#else
 		res = KSI_HighAvailabilityService_run(&has, KSI_HighAvailabilityService_aggrRespHandler, &out, &waiting);
+#endif
 		__CPROVER_assert(res == KSI_OK, "run: succeeds when no sub-service fails");
 		if (out != NULL) { scn_record(out); KSI_AsyncHandle_free(out); }
 	}
